@@ -107,6 +107,7 @@ def check_problem(spec, calls, counters, violations):
     issues = []
     unit = all(w == 1.0 for w in spec["wv"])
     row_tars = []       # target values in effect when each row was logged ("retarget" moves the goal later)
+    tag_rows = {}       # tag name -> index of the last row this harness tagged with it
 
     def note_rows():
         n_rows = len(opt._log["penalty"])
@@ -145,19 +146,54 @@ def check_problem(spec, calls, counters, violations):
             elif k == "solve":
                 opt.solve()
             elif k == "reload":
-                opt.reload(iteration=min(call[1], len(opt._log["penalty"]) - 1))
+                if tag_rows and call[1] % 3 == 0:
+                    # reload by TAG: the row meant is the last one this harness tagged with that name (own record)
+                    name = sorted(tag_rows)[call[1] % len(tag_rows)]
+                    opt.reload(tag=name)
+                    want = [float(v) for v in np.atleast_2d(opt.log()["vary"])[tag_rows[name]]]
+                    got = [float(v) for v in S.knobs()]
+                    counters["reloads_by_tag_checked"] = counters.get("reloads_by_tag_checked", 0) + 1
+                    if any(not close(a, b, spec["wv"][j] == 1.0) for j, (a, b) in enumerate(zip(got, want))):
+                        issues.append("reload(tag=%r) left the knobs at %s, the row tagged %r (row %d) records %s" % (name, got, name, tag_rows[name], want))
+                else:
+                    opt.reload(iteration=min(call[1], len(opt._log["penalty"]) - 1))
             elif k == "tag":
                 opt.tag(call[1])
+                tag_rows[call[1]] = len(opt._log["penalty"]) - 1
             elif k in ("disable", "enable"):
                 what, idx = call[1], call[2]
                 lst = S.targets if what == "target" else S.vary
                 idx = idx % len(lst)
                 if k == "disable" and sum(1 for x in lst if x.active) <= 1:
                     continue
-                getattr(opt, k)(**{what: idx})
+                before_flags = S.flags()
+                # the same request through the different spellings of the API
+                form = (idx * 7 + len(opt._log["penalty"])) % (5 if what == "vary" else 4)
+                if what == "vary":
+                    kw = [{"vary": idx}, {"vary_name": S.names[idx]}, {"vary": "v%d" % idx}, None, None][form]
+                    if kw is not None:
+                        getattr(opt, k)(**kw)
+                    elif form == 3:
+                        getattr(opt, k + "_vary")(id=idx)
+                    else:
+                        getattr(opt, k + "_vary")(tag="v%d" % idx)
+                else:
+                    kw = [{"target": idx}, {"target": "t%d" % idx}, None, None][form]
+                    if kw is not None:
+                        getattr(opt, k)(**kw)
+                    elif form == 2:
+                        getattr(opt, k + "_targets")(id=idx)
+                    else:
+                        getattr(opt, k + "_targets")(tag="t%d" % idx)
+                want_flags = [list(before_flags[0]), list(before_flags[1])]
+                want_flags[0 if what == "vary" else 1][idx] = (k == "enable")
+                counters["flag_changes_checked"] = counters.get("flag_changes_checked", 0) + 1
+                if [list(x) for x in S.flags()] != want_flags:
+                    issues.append("%s(%s %d, API form %d) left the active flags at %s, expected %s" % (k, what, idx, form, S.flags(), want_flags))
             elif k == "clear_log":
                 opt.clear_log()
                 del row_tars[:]
+                tag_rows.clear()
             elif k == "retarget":
                 i = call[1] % spec["m"]
                 S.targets[i].value = S.targets[i].value + call[2]
@@ -168,6 +204,10 @@ def check_problem(spec, calls, counters, violations):
             counters.setdefault("calls_raised", {})
             kk = "%s:%s" % (k, type(exc).__name__)
             counters["calls_raised"][kk] = counters["calls_raised"].get(kk, 0) + 1
+            if isinstance(exc, (NameError, AttributeError, TypeError, KeyError, IndexError, UnboundLocalError)) and S.fault_at is None:
+                # a legal call may fail to converge or hit a limit (RuntimeError, ValueError, LinAlgError), but not with
+                # an error of this kind
+                issues.append("%s raised %s: %s" % (k, type(exc).__name__, str(exc)[:150]))
         S.fault_at = None
         note_rows()
         if issues:
